@@ -55,6 +55,18 @@ static void one(const std::vector<bgen::Elem> &alph, const Stored &st, const std
         else if(r2 != expect.size() || memcmp(exact, expect.data(), r2)) vp::violation("bundle-length|rtosc_bundle|exact-size-destination," + shape, cid, "destination of exactly " + std::to_string(expect.size()) + " bytes: returned " + std::to_string(r2));
         else if((unsigned char)exact[expect.size()] != 0xA5) vp::violation("write-outside|rtosc_bundle|exact-size-destination," + shape, cid, "byte behind the destination changed");
     }
+    // too small a destination: every capacity below the bundle's size must be refused (0 returned) - a shortened bundle is not a bundle of
+    // these elements (short sequences only; C02 does the same under guard pages for its own family)
+    if(built_ok && seq.size() <= 2) {
+        static char small[BUFSZ + 64];
+        for(size_t cap = 0; cap < expect.size(); ++cap) {
+            size_t r3 = 1;
+            int sig3 = guard::guarded([&] { r3 = varcall::call_bundle(small, cap, tt, ptrs); });
+            vp::transition();
+            if(sig3) { vp::violation("crash|rtosc_bundle|too-small-destination," + shape, cid, "signal " + std::to_string(sig3) + " at capacity " + std::to_string(cap)); break; }
+            if(r3 != 0) { vp::violation("bundle-length|rtosc_bundle|too-small-destination," + shape, cid, "destination of " + std::to_string(cap) + " bytes for a bundle of " + std::to_string(expect.size()) + ": returned " + std::to_string(r3)); break; }
+        }
+    }
     // decompose: from the library's output if it is right, else from the reference bytes (readers are checked regardless)
     if(!built_ok) { memset(g_buf, 0, sizeof g_buf); memcpy(g_buf, expect.data(), expect.size()); shape = std::string(has_nested ? "nested-element" : "messages-only") + ",reference-bytes"; }
     const size_t len = expect.size();
@@ -123,7 +135,7 @@ int main(int argc, char **argv)
     vp::bound("element_alphabet", (long long)alph.size());
     vp::bound("nesting_depth", "0.." + std::to_string(maxdepth));
     vp::bound("sequences", "all of length 0.." + std::to_string(T ? 5 : 3) + " over the alphabet (" + std::to_string(n_main) + ") + all of length " + std::to_string(T ? 5 : 4) + "..8 over {m8, one-element nested bundle}");
-    vp::bound("timetags", "7 (0,1,2^32-1,2^32,2^63,2^64-1,0x0102030405060708): all for sequences of length <= 2, rotating beyond");
+    vp::bound("timetags", "12 (0,1,2^32-1,2^32,2^63,2^64-1,0x0102030405060708 and five holding the bytes ',' '/' '#' / the text '#bundle'): all for sequences of length <= 2, rotating beyond");
     vp::bound("ring_splits", "every bundle of up to 600 bytes also as a two-segment ring split at every offset 0..len (segments in separate allocations)");
     vp::bound("layouts", "element followed by zero bytes / by bytes that look like one more size-prefixed element");
     for(auto &e : alph) vp::sample(e.name + " (" + std::to_string(e.bytes.size()) + " bytes)", 12);
